@@ -8,10 +8,9 @@
    bound sets' shapes() generator.  SPEC: [spec_item q i] reads item i off the array views by
    position only ([pick] = explicit positions, [rows_at] = data rows at those indices).
 
-   One recorded finding is excluded by [no_void_polygons]: a polylist / polygons with an
-   EMPTY index and a non-empty vcount list of zeros (C10_iter_refuted). *)
+   [getitem_z] is prim[z] with Python's index normalisation (Base.Py.norm_index). *)
 From Coq Require Import List ZArith NArith Lia.
-From PC Require Import Base.Outcome Model.IndexTable Model.PrimCtor Model.PrimIter
+From PC Require Import Base.Outcome Base.Mat Model.IndexTable Model.PrimCtor Model.PrimIter
   Proofs.IndexTable Proofs.PrimCtor Proofs.PrimIter.
 Import ListNotations.
 
@@ -24,59 +23,50 @@ Proof. intro p. split; [reflexivity|]. intros. reflexivity. Qed.
 Print Assumptions C10_len_counts_shapes.
 
 (* iteration of an accepted unbound primitive yields exactly the len() items the SPEC
-   describes, in order, and ends (no exception) *)
-Theorem C10_iter_is_map_partial : forall kd ins mat s p, construct kd ins mat s = Ok p ->
-  no_void_polygons p ->
+   describes, in order, and ends (no exception) - for every accepted primitive of every kind *)
+Theorem C10_iter_is_map : forall kd ins mat s p, construct kd ins mat s = Ok p ->
   iter (unbound p) = Ok (map (spec_item (unbound p)) (seq 0 (ilen (unbound p)))).
-Proof. intros. apply iter_is_map; [eapply unbound_iwf; eauto|now apply guard_unbound]. Qed.
-Print Assumptions C10_iter_is_map_partial.
-
-(* for triangle and line sets no guard is needed *)
-Theorem C10_iter_is_map_triangles_lines : forall kd ins mat s p, construct kd ins mat s = Ok p ->
-  is_poly kd = false ->
-  iter (unbound p) = Ok (map (spec_item (unbound p)) (seq 0 (p_nrows p))) /\
-  forall m mm, shapes (bind p m mm) = Ok (map (spec_item (bind p m mm)) (seq 0 (p_nrows p))) /\
-               iter (bind p m mm) = Ok (map (spec_item (bind p m mm)) (seq 0 (p_nrows p))).
-Proof.
-  intros kd ins mat s p H Hk. destruct (accepted_shapes _ _ _ _ _ H) as [K _].
-  assert (G : no_void_polygons p) by (intros _ Hp; rewrite K, Hk in Hp; discriminate).
-  assert (L : forall q, ip_kind q = p_kind p -> ip_nrows q = p_nrows p -> ilen q = p_nrows p).
-  { intros q E1 E2. unfold ilen. rewrite E1, K, Hk. exact E2. }
-  split.
-  - rewrite <- (L (unbound p)) by reflexivity. eapply C10_iter_is_map_partial; eauto.
-  - intros m mm. rewrite <- (L (bind p m mm)) by reflexivity. split.
-    + apply shapes_is_map; [eapply bind_iwf; eauto|now apply guard_bind].
-    + apply iter_is_map; [eapply bind_iwf; eauto|now apply guard_bind].
-Qed.
-Print Assumptions C10_iter_is_map_triangles_lines.
+Proof. intros. apply iter_is_map. eapply unbound_iwf; eauto. Qed.
+Print Assumptions C10_iter_is_map.
 
 (* an empty primitive iterates to nothing *)
 Theorem C10_empty_iterates_to_nothing : forall kd ins mat s p, construct kd ins mat s = Ok p ->
-  no_void_polygons p -> p_nrows p = 0 ->
+  ilen (unbound p) = 0 ->
   iter (unbound p) = Ok [] /\ forall m mm, shapes (bind p m mm) = Ok [] /\ iter (bind p m mm) = Ok [].
 Proof.
-  intros kd ins mat s p H G Z.
-  assert (L : forall q, guard q -> ip_nrows q = 0 -> ilen q = 0) by (intros q Gq Zq; auto).
-  split.
-  - rewrite (C10_iter_is_map_partial _ _ _ _ _ H G). rewrite (L _ (guard_unbound _ G) Z). reflexivity.
-  - intros m mm. pose proof (guard_bind p m mm G) as Gb. split.
-    + rewrite (shapes_is_map _ (bind_iwf _ _ _ _ _ m mm H) Gb). rewrite (L _ Gb Z). reflexivity.
-    + rewrite (iter_is_map _ (bind_iwf _ _ _ _ _ m mm H) Gb). rewrite (L _ Gb Z). reflexivity.
+  intros kd ins mat s p H Z. split.
+  - rewrite (C10_iter_is_map _ _ _ _ _ H), Z. reflexivity.
+  - intros m mm. assert (Zb : ilen (bind p m mm) = 0) by exact Z. split.
+    + rewrite (shapes_is_map _ (bind_iwf _ _ _ _ _ m mm H)), Zb. reflexivity.
+    + rewrite (iter_is_map _ (bind_iwf _ _ _ _ _ m mm H)), Zb. reflexivity.
 Qed.
 Print Assumptions C10_empty_iterates_to_nothing.
 
 (* item access: prim[i] succeeds exactly for i < len() and returns the SPEC's item *)
-Theorem C10_item_fields : forall kd ins mat s p i, construct kd ins mat s = Ok p -> no_void_polygons p ->
+Theorem C10_item_fields : forall kd ins mat s p i, construct kd ins mat s = Ok p ->
   (i < ilen (unbound p) -> getitem (unbound p) i = Ok (spec_item (unbound p) i)) /\
   (forall it, getitem (unbound p) i = Ok it -> i < ilen (unbound p)) /\
   getitem (unbound p) (ilen (unbound p)) = Raise PyIndexError.
 Proof.
-  intros kd ins mat s p i H G. split; [|split].
-  - intro Hi. apply getitem_spec; [eapply unbound_iwf; eauto|now apply guard_unbound|exact Hi].
+  intros kd ins mat s p i H. split; [|split].
+  - intro Hi. apply getitem_spec; [eapply unbound_iwf; eauto|exact Hi].
   - intros it. apply getitem_ok_lt.
   - apply getitem_end.
 Qed.
 Print Assumptions C10_item_fields.
+
+(* prim[z] for any Python integer z, bound or unbound: positions count from the end when
+   negative, and everything outside [-len, len) is an IndexError *)
+Theorem C10_python_index : forall kd ins mat s p z q, construct kd ins mat s = Ok p ->
+  (q = unbound p \/ exists m mm, q = bind p m mm) ->
+  ((0 <= z < Z.of_nat (ilen q))%Z -> getitem_z q z = Ok (spec_item q (Z.to_nat z))) /\
+  ((- Z.of_nat (ilen q) <= z < 0)%Z -> getitem_z q z = Ok (spec_item q (Z.to_nat (z + Z.of_nat (ilen q))))) /\
+  ((z < - Z.of_nat (ilen q) \/ Z.of_nat (ilen q) <= z)%Z -> getitem_z q z = Raise PyIndexError).
+Proof.
+  intros kd ins mat s p z q H [->|[m [mm ->]]]; apply getitem_z_spec;
+    [eapply unbound_iwf|eapply bind_iwf]; eauto.
+Qed.
+Print Assumptions C10_python_index.
 
 (* the SPEC item, field by field and corner by corner: the c-th index of item i is the view's
    entry at position start_i + c, and the c-th vertex is the data row that index selects *)
@@ -140,38 +130,62 @@ Proof.
 Qed.
 Print Assumptions C10_absent_inputs.
 
-(* bound primitives: shapes() and list(bound) yield the SPEC's items over the transformed
-   arrays, for any integer matrix and any material map; index arrays, texture coordinates and
-   the number of shapes are those of the unbound primitive and the material is the map's *)
-Theorem C10_bound_iter_is_map_partial : forall kd ins mat s p m mm, construct kd ins mat s = Ok p ->
-  no_void_polygons p ->
+(* bound primitives: shapes() and list(bound) yield the SPEC's items over the bound arrays, for
+   any integer matrix and any material map *)
+Theorem C10_bound_iter_is_map : forall kd ins mat s p m mm, construct kd ins mat s = Ok p ->
   let b := bind p m mm in
   shapes b = Ok (map (spec_item b) (seq 0 (ilen b))) /\
   iter b = Ok (map (spec_item b) (seq 0 (ilen b))) /\
-  ilen b = ilen (unbound p) /\
-  option_map snd (ip_vertex b) = option_map snd (ip_vertex (unbound p)) /\
-  option_map fst (ip_vertex b) = option_map (fun v => map (xform_point m) (fst v)) (ip_vertex (unbound p)) /\
-  option_map fst (ip_normal b) = option_map (fun v => map (xform_dir m) (fst v)) (ip_normal (unbound p)) /\
-  ip_texcoord b = ip_texcoord (unbound p) /\
-  ip_material b = match p_material p with Some sy => lookup mm sy | None => None end.
+  ilen b = ilen (unbound p).
 Proof.
-  intros kd ins mat s p m mm H G b. subst b. split; [|split].
-  - apply shapes_is_map; [eapply bind_iwf; eauto|now apply guard_bind].
-  - apply iter_is_map; [eapply bind_iwf; eauto|now apply guard_bind].
-  - unfold bind, unbound. simpl. repeat split; destruct (p_vertex p), (p_normal p); reflexivity.
+  intros kd ins mat s p m mm H b. subst b. split; [|split].
+  - apply shapes_is_map. eapply bind_iwf; eauto.
+  - apply iter_is_map. eapply bind_iwf; eauto.
+  - reflexivity.
 Qed.
-Print Assumptions C10_bound_iter_is_map_partial.
+Print Assumptions C10_bound_iter_is_map.
 
-(* ---- the finding that the guard excludes: two zero-corner polygons on an empty index are
-   accepted, len() is 2, and item access subscripts the absent views (TypeError) *)
-Definition void_ins := [Inp 0 VERTEX (Src [[0;0;0];[1;0;0];[0;1;0]]%Z 3)].
-Example C10_iter_refuted :
-  exists p, construct KPolylist void_ins None (SPolylist [] [0; 0]) = Ok p /\
-            ilen (unbound p) = 2 /\ iter (unbound p) = Raise PyTypeError /\ ~ no_void_polygons p.
+(* ... and the i-th bound item IS the i-th unbound item transformed: same indices, texture
+   coordinates and their indices, every vertex row mapped by v |-> R.v + t, every normal row by
+   n |-> R.n (no translation), the material looked up in the map *)
+Theorem C10_bound_item_is_unbound_transformed : forall kd ins mat s p m mm i,
+  construct kd ins mat s = Ok p -> i < ilen (unbound p) ->
+  let u := spec_item (unbound p) i in
+  let b := spec_item (bind p m mm) i in
+  it_indices b = it_indices u /\
+  it_vertices b = map (xform_point m) (it_vertices u) /\
+  it_texcoord_indices b = it_texcoord_indices u /\ it_texcoords b = it_texcoords u /\
+  (forall l, it_normal_indices u = NIdx l -> it_normal_indices b = NIdx l) /\
+  (forall rows, it_normals u = NRows rows -> it_normals b = NRows (map (xform_dir m) rows)) /\
+  (it_normals u = NNone -> it_normals b = NNone) /\
+  it_material b = match p_material p with Some sy => lookup mm sy | None => None end.
+Proof. exact bound_item_transformed. Qed.
+Print Assumptions C10_bound_item_is_unbound_transformed.
+
+(* the row maps are Base/Mat.v's affine action: with A the 4x4 matrix whose first three rows
+   are m and whose last row is 0 0 0 1, a point goes to xyz (A . (v, 1)) = lin A v + translation A
+   and a direction to lin A v *)
+Theorem C10_binding_is_affine_action : forall m v, length m = 3 ->
+  affine 0%Z 1%Z (mat_of_rows m) /\
+  xform_point m v = l3 (xyz (zmapply (mat_of_rows m) (point 1%Z (v3 v)))) /\
+  xform_point m v = l3 (vadd Z.add (zlin_apply (mat_of_rows m) (v3 v)) (translation 0%Z (mat_of_rows m))) /\
+  xform_dir m v = l3 (zlin_apply (mat_of_rows m) (v3 v)).
 Proof.
-  eexists. split; [vm_compute; reflexivity|]. split; [reflexivity|]. split; [vm_compute; reflexivity|].
-  intro G. specialize (G eq_refl eq_refl). discriminate.
+  intros m v H. split; [apply mat_of_rows_affine|]. split; [now apply xform_point_mat|]. split.
+  - rewrite (xform_point_mat m v H). unfold zmapply, zlin_apply.
+    rewrite (xyz_mapply_point Z 0%Z 1%Z Z.add Z.mul Z.sub Z.opp Zth_mat). reflexivity.
+  - now apply xform_dir_mat.
 Qed.
+Print Assumptions C10_binding_is_affine_action.
+
+(* ---- the former finding (zero-corner polygons on an empty index), now repaired in /repo:
+   accepted, two items, each with no corners, and iteration ends normally *)
+Definition void_ins := [Inp 0 VERTEX (Src [[0;0;0];[1;0;0];[0;1;0]]%Z 3)].
+Example C10_void_polygons_iterate :
+  exists p, construct KPolylist void_ins None (SPolylist [] [0; 0]) = Ok p /\
+            ilen (unbound p) = 2 /\
+            option_map (map it_vertices) (match iter (unbound p) with Ok l => Some l | _ => None end) = Some [[]; []].
+Proof. eexists. split; [vm_compute; reflexivity|]. split; vm_compute; reflexivity. Qed.
 
 (* ---- Non-vacuity: a polylist with normals and two texcoord sets, three polygons (one of
    them a zero-corner polygon in the middle), bound with a rotation + translation *)
@@ -182,7 +196,7 @@ Definition ex_ins := [Inp 0 VERTEX ex_v; Inp 1 NORMAL ex_n; Inp 0 TEXCOORD ex_t;
 Definition ex_stream := SPolylist [0;0;2; 1;1;0; 2;0;1;   2;1;1; 1;0;2; 0;1;0; 2;0;0]%N [3; 0; 4].
 
 Example C10_nonvacuous :
-  exists p, construct KPolylist ex_ins (Some 7%N) ex_stream = Ok p /\ no_void_polygons p /\
+  exists p, construct KPolylist ex_ins (Some 7%N) ex_stream = Ok p /\
     ilen (unbound p) = 3 /\
     option_map (map it_indices) (match iter (unbound p) with Ok l => Some l | _ => None end)
       = Some [[0;1;2]; []; [2;1;0;2]]%N /\
@@ -191,11 +205,11 @@ Example C10_nonvacuous :
       = Some [[[5;0;-2];[5;1;-2];[4;0;-2]]; []; [[4;0;-2];[5;1;-2];[5;0;-2];[4;0;-2]]]%Z /\
     ip_material (bind p [[0;-1;0;5];[1;0;0;0];[0;0;1;-2]]%Z [(7, 9)]%N) = Some 9%N.
 Proof.
-  eexists. split; [vm_compute; reflexivity|]. split; [intros Z; vm_compute in Z; discriminate|].
+  eexists. split; [vm_compute; reflexivity|].
   vm_compute. repeat split.
 Qed.
 
 Example C10_empty_nonvacuous :
-  exists p, construct KTri ex_ins None (SFlat []) = Ok p /\ no_void_polygons p /\ p_nrows p = 0 /\
+  exists p, construct KTri ex_ins None (SFlat []) = Ok p /\ p_nrows p = 0 /\
             iter (unbound p) = Ok [] /\ getitem (unbound p) 0 = Raise PyIndexError.
-Proof. eexists. split; [vm_compute; reflexivity|]. split; [intros _ Hp; vm_compute in Hp; discriminate|]. vm_compute. repeat split. Qed.
+Proof. eexists. split; [vm_compute; reflexivity|]. vm_compute. repeat split. Qed.
